@@ -24,6 +24,7 @@ N(t) == [k |-> "name", t |-> <<t>>]
 P(t) == [k |-> "pos", t |-> <<t>>]
 O(t) == [k |-> "own", t |-> t]
 L(t) == [k |-> "lit", t |-> <<t>>]
+G(t) == [k |-> "glob", t |-> <<t>>]
 Sw(t) == [k |-> "sw", t |-> <<t>>]
 DD == [k |-> "dd", t |-> <<"--">>]
 
@@ -49,7 +50,10 @@ Bases == <<
   <<N("grp"), N("one"), P("z")>>,                                    \* 19
   <<N("hub")>>,                                                      \* 20  sub-commands named like the switches
   <<N("hub"), P("a")>>,                                              \* 21
-  <<N("hub"), P("a"), DD, L("b")>>                                   \* 22
+  <<N("hub"), P("a"), DD, L("b")>>,                                  \* 22
+  <<N("pkg"), P("x"), G("--verbose")>>,                              \* 23  an optional-value option directly before what is inserted
+  <<N("pkg"), P("x"), G("--verbose"), DD, L("y")>>,                  \* 24  ... directly before "--"
+  <<N("top"), G("--verbose=3"), P("a")>>                             \* 25
 >>
 
 InsertAt(l, p, u) == SubSeq(l, 1, p) \o <<u>> \o SubSeq(l, p + 1, Len(l))
